@@ -156,6 +156,34 @@ CheckCycle(es, cur, parent) ==
        ELSE IF n.cls = "not" THEN [ es EXCEPT !.err = IF @ = "" THEN "NegativeCycle" ELSE @ ]
        ELSE CheckCycle(es, n.par, parent)
 
+\* (repaired engine, table hit of an active goal) a negation on the path from the caller UP TO the active goal - only if
+\* the active goal is an ancestor of the caller; an active goal on a sibling branch of an open cycle is no cycle
+RECURSIVE CheckPath(_, _, _, _)
+CheckPath(es, cur, parent, neg) ==
+  IF cur = Top \/ cur < parent THEN es
+  ELSE IF cur = parent THEN (IF neg THEN [ es EXCEPT !.err = IF @ = "" THEN "NegativeCycle" ELSE @ ] ELSE es)
+  ELSE LET n == es.stack[cur] IN
+       IF n.oncyc THEN es ELSE CheckPath(es, n.par, parent, neg \/ n.cls = "not")
+
+\* (repaired engine, table hit of an active goal G)  The goals G depends on through OPEN cycles: G itself, and every active
+\* goal that has a cycle child or a sibling below a goal already in the set.  A negation on the call path from one of them
+\* down to the caller closes a cycle through negation; an active goal on a sibling branch that does not depend on the
+\* caller's ancestors (a cycle nested in a cycle) does not.
+RECURSIVE IsBelow(_, _, _)
+IsBelow(es, x, y) == IF x = Top THEN FALSE ELSE IF x = y THEN TRUE ELSE IsBelow(es, es.stack[x].par, y)
+RECURSIVE DependsOn(_, _)
+DependsOn(es, D) ==
+  LET more == { a \in DOMAIN es.stack : es.stack[a] # Nil /\ es.stack[a].cls = "def" /\
+                   \E c \in RangeOf(es.stack[a].cch) \cup RangeOf(es.stack[a].sib) : \E d \in D : IsBelow(es, c, d) }
+  IN  IF more \subseteq D THEN D ELSE DependsOn(es, D \cup more)
+RECURSIVE NegOnPath(_, _, _, _)
+NegOnPath(es, cur, anc, neg) ==
+  IF cur = Top THEN FALSE ELSE IF cur = anc THEN neg
+  ELSE NegOnPath(es, es.stack[cur].par, anc, neg \/ es.stack[cur].cls = "not")
+CheckTableHit(es, caller, g) ==
+  IF \E d \in DependsOn(es, {g}) : NegOnPath(es, caller, d, FALSE)
+  THEN [ es EXCEPT !.err = IF @ = "" THEN "NegativeCycle" ELSE @ ] ELSE es
+
 \* EvalDefine.cycleDetected: c = the new (cycle child) record, a = the active record of the same goal
 CycleDetected(es, c, a) ==
   LET cyc == FindCycle(es, c, a, << >>, 0)
@@ -204,7 +232,7 @@ EvalN(P, es, node, par, ident) ==
               LET ap == IF node.p \in es.active
                         THEN CHOOSE x \in DOMAIN es.stack : es.stack[x] # Nil /\ es.stack[x].cls = "def" /\ es.stack[x].p = node.p /\ ~es.stack[x].child
                         ELSE -1
-                  e1 == IF CheckOnTableHit /\ ap # -1 /\ par # Top THEN CheckCycle(es, par, ap) ELSE es
+                  e1 == IF CheckOnTableHit /\ ap # -1 /\ par # Top THEN CheckTableHit(es, par, ap) ELSE es
               IN  Ret(e1, TableActions(es.cache[node.p], par, ident), FALSE)
          ELSE IF node.p \in es.active
          THEN LET ap == CHOOSE x \in DOMAIN es.stack : es.stack[x] # Nil /\ es.stack[x].cls = "def" /\ es.stack[x].p = node.p
